@@ -73,6 +73,13 @@ def runHistory (ops : List Op) (keys : List String) : SExpr :=
       go st' rest (obsState st' keys :: acc)
   .list (go St.init ops [])
 
+def parseClassTable (s : String) : Option ClassTable :=
+  match SExpr.parse s with
+  | some (.list xs) => xs.mapM (fun x => match x with
+      | .list [.str t, names] => (strsOfSExpr names).map (fun ns => (t, ns))
+      | _ => none)
+  | _ => none
+
 def okE (e : Expr) : String := "ok\t" ++ e.render
 def bad : String := "err\tbad-request"
 
@@ -139,6 +146,11 @@ def handle (op : String) (args : List String) : String :=
       | .ok _ => "ok\tunit"
       | .error err => "err\t" ++ err.render)
     | none => bad
+  | "sugar", [ct, e] => match parseClassTable ct, parseExpr e with
+    | some ct, some e => (match resolveSugar ct e with
+      | .ok e' => okE e'
+      | .error err => "err\t" ++ err.render)
+    | _, _ => bad
   | "ev", [ds, env, e] => match parseVal ds, parseEnv env, parseExpr e with
     | some ds, some env, some e => resStr (ev (driverWorld ds) (Env.ofList env.reverse) e)
     | _, _, _ => bad
